@@ -194,7 +194,9 @@ macro_rules! generate_method_for_document_type {
         .map_err(Error::VerificationMethodConstructionError)?
         .to_owned();
 
-      // Insert method into document and handle error upon failure.
+      // Insert method into document and handle error upon failure. Keep the document as it was so that it can be
+      // restored exactly: removing the method again would also drop references that were there before.
+      let document_before_insertion: $t = document.clone();
       if let Err(error) = document
         .insert_method(method, scope)
         .map_err(|_| Error::FragmentAlreadyExists)
@@ -209,7 +211,7 @@ macro_rules! generate_method_for_document_type {
         .map_err(Error::KeyIdStorageError)
       {
         // Remove the method from the document as it can no longer be used.
-        let _ = document.remove_method(&method_id);
+        *document = document_before_insertion;
         return Err(try_undo_key_generation(storage, &key_id, error).await);
       }
 
